@@ -1,0 +1,134 @@
+//go:build verif
+
+package fullrt
+
+// Contracts for the accelerated (full routing table) client (property C16).
+// Comment-only.
+
+/*@
+import kademlia "github.com/libp2p/go-libp2p-xor/kademlia"
+import manet "github.com/multiformats/go-multiaddr/net"
+import peerdiversity "github.com/libp2p/go-libp2p-kbucket/peerdiversity"
+import trie "github.com/libp2p/go-libp2p-xor/trie"
+
+# (assumed, like the trie contracts in extern/std.spec)
+axiom trieSize_nonneg: allT(t, *trie.Trie, trieSize(t) >= 0)
+
+immutable field FullRT.bucketSize
+immutable field FullRT.ipDiversityFilterLimit
+guarded_by FullRT.rtLk : FullRT.rt, FullRT.lastCrawlTime
+guarded_by FullRT.kMapLk : FullRT.keyToPeerMap
+guarded_by FullRT.peerAddrsLk : FullRT.peerAddrs
+
+# Crawl generation of each of the three published structures. They are only
+# written while all three write locks are held (ghost asserts in runCrawler),
+# and are equal whenever any of the locks is released: a reader holding the
+# locks sees the trie, the key map and the address map of one single crawl.
+ghost field (FullRT) $rtGen int
+ghost field (FullRT) $kmGen int
+ghost field (FullRT) $paGen int
+lockinv FullRT.rtLk : self.$rtGen == self.$kmGen && self.$kmGen == self.$paGen
+lockinv FullRT.kMapLk : self.$rtGen == self.$kmGen && self.$kmGen == self.$paGen
+lockinv FullRT.peerAddrsLk : self.$rtGen == self.$kmGen && self.$kmGen == self.$paGen
+
+# group of an address, as the filter computes it
+pred grpOK(a ma.Multiaddr) = ipOK(a) && len(peerdiversity.IPGroupKey(ipOf(a))) > 0
+pred grpOf(a ma.Multiaddr) = peerdiversity.IPGroupKey(ipOf(a))
+
+# the per-group tallies: every group's set is a distinct allocated map holding
+# at most `limit` peers
+pred talliesOK(m map[peerdiversity.PeerIPGroupKey]map[peer.ID]struct{}, limit int) = m != nil && allT(g, peerdiversity.PeerIPGroupKey, imp(has(m, g), m[g] != nil && allocated(m[g]) && fresh(m[g]) && len(m[g]) <= limit)) && allT(g1, peerdiversity.PeerIPGroupKey, allT(g2, peerdiversity.PeerIPGroupKey, imp(has(m, g1) && has(m, g2) && g1 != g2, m[g1] != m[g2])))
+
+# every address of peer x that has a group puts x into that group's tally
+pred counted(m map[peerdiversity.PeerIPGroupKey]map[peer.ID]struct{}, as []ma.Multiaddr, n int, x peer.ID) = all(j, 0, n, imp(grpOK(as[j]), has(m, grpOf(as[j])) && has(m[grpOf(as[j])], x)))
+
+# rank r of the snapshot is mapped to a peer
+pred mapped(dht *FullRT, kk string, r int) = has(dht.keyToPeerMap, trieNth(dht.rt, kk, r))
+pred peerAt(dht *FullRT, kk string, r int) = dht.keyToPeerMap[trieNth(dht.rt, kk, r)]
+pred allMapped(dht *FullRT, kk string) = all(i, 0, trieSize(dht.rt), mapped(dht, kk, i))
+
+# The result lists peers of ONE snapshot (trie, key map and address map read
+# under all three read locks, which carry the same crawl generation) at
+# strictly increasing ranks of the trie's nearest-first order ($rk), i.e. in
+# ascending XOR distance; with the diversity filter disabled it is exactly
+# the first min(K, size) ranks. With the filter enabled, every returned peer
+# is a member of the tally of each IP group it has an address in, and no
+# tally exceeds the limit - so at most `limit` returned peers per group.
+func (dht *FullRT) GetClosestPeers(ctx context.Context, key string) ([]peer.ID, error)
+  props C16
+  requires dht.bucketSize > 0 && dht.ipDiversityFilterLimit >= 0
+  ghostvar $rk map[int]int = any
+  ghostvar $kk string = any
+  ghostvar $m ref(map[peerdiversity.PeerIPGroupKey]map[peer.ID]struct{}) = any
+  ghostvar $snap bool = false
+  modifies nothing
+  ensures [atmost-K] len(result0) <= dht.bucketSize && result1 == nil
+  ensures [internal-one-snapshot] imp(len(result0) > 0, $snap)
+  ensures [internal-ascending-ranks] all(a, 0, len(result0), 0 <= $rk[a] && $rk[a] < trieSize(dht.rt) && mapped(dht, $kk, $rk[a]) && result0[a] == peerAt(dht, $kk, $rk[a])) && all(a, 0, len(result0), all(b, a+1, len(result0), $rk[a] < $rk[b]))
+  ensures [internal-exactly-nearest-when-unfiltered] imp(dht.ipDiversityFilterLimit == 0 && allMapped(dht, $kk), len(result0) == min(dht.bucketSize, trieSize(dht.rt)) && all(a, 0, len(result0), $rk[a] == a))
+  ensures [internal-group-limit] imp(dht.ipDiversityFilterLimit > 0, talliesOK($m, dht.ipDiversityFilterLimit) && all(k, 0, len(result0), counted($m, dht.peerAddrs[result0[k]], len(dht.peerAddrs[result0[k]]), result0[k])))
+  loop 0 invariant nClosest >= 0 && step > 0 && len(peers) < dht.bucketSize && $kk == str(kadKey) && $m == ipGroupCounts && imp(len(peers) > 0, $snap) && dht.$rtGen == dht.$kmGen && dht.$kmGen == dht.$paGen
+  loop 0 invariant held(dht.rtLk) && held(dht.kMapLk) && held(dht.peerAddrsLk)
+  loop 0 invariant [group-limit] talliesOK(ipGroupCounts, dht.ipDiversityFilterLimit)
+  loop 0 invariant all(a, 0, len(peers), 0 <= $rk[a] && $rk[a] < nClosest && $rk[a] < trieSize(dht.rt) && mapped(dht, $kk, $rk[a]) && peers[a] == peerAt(dht, $kk, $rk[a])) && all(a, 0, len(peers), all(b, a+1, len(peers), $rk[a] < $rk[b]))
+  loop 0 invariant imp(dht.ipDiversityFilterLimit == 0 && allMapped(dht, $kk), len(peers) == min(nClosest, trieSize(dht.rt)) && all(a, 0, len(peers), $rk[a] == a))
+  loop 0 invariant imp(dht.ipDiversityFilterLimit > 0, all(k, 0, len(peers), counted(ipGroupCounts, dht.peerAddrs[peers[k]], len(dht.peerAddrs[peers[k]]), peers[k])))
+  loop 0 decreases trieSize(dht.rt) - nClosest
+  loop over closestKeys invariant len(peers) < dht.bucketSize
+  loop over closestKeys invariant [group-limit] talliesOK(ipGroupCounts, dht.ipDiversityFilterLimit)
+  loop over closestKeys invariant all(a, 0, len(peers), 0 <= $rk[a] && $rk[a] < nClosest + $key && $rk[a] < trieSize(dht.rt) && mapped(dht, $kk, $rk[a]) && peers[a] == peerAt(dht, $kk, $rk[a])) && all(a, 0, len(peers), all(b, a+1, len(peers), $rk[a] < $rk[b]))
+  loop over closestKeys invariant imp(dht.ipDiversityFilterLimit == 0 && allMapped(dht, $kk), len(peers) == nClosest + $key && all(a, 0, len(peers), $rk[a] == a))
+  loop over closestKeys invariant imp(dht.ipDiversityFilterLimit > 0, all(k, 0, len(peers), counted(ipGroupCounts, dht.peerAddrs[peers[k]], len(dht.peerAddrs[peers[k]]), peers[k])))
+  loop over peerAddrs invariant [group-limit] talliesOK(ipGroupCounts, dht.ipDiversityFilterLimit)
+  loop over peerAddrs invariant counted(ipGroupCounts, peerAddrs, $key, p)
+  loop over peerAddrs invariant all(k, 0, len(peers), counted(ipGroupCounts, dht.peerAddrs[peers[k]], len(dht.peerAddrs[peers[k]]), peers[k]))
+  ghost at assign(kadKey): $kk = str(kadKey)
+  ghost at assign(ipGroupCounts): $m = ipGroupCounts
+  ghost at before call(ClosestN): assert(held(dht.rtLk) && held(dht.kMapLk) && held(dht.peerAddrsLk) && dht.$rtGen == dht.$kmGen && dht.$kmGen == dht.$paGen); $snap = true
+  ghost at append(peers): $rk[len(peers)-1] = nClosest + $key
+  # a peer is only rejected because of OTHER peers already counted in the group
+  ghost at continue(PeersLoop): assert(!has(ipGroupCounts[ipGroup], p) && len(ipGroupCounts[ipGroup]) >= dht.ipDiversityFilterLimit)
+
+# The crawl result is published as ONE snapshot: the three structures are
+# replaced while all three write locks are held, so no reader (which takes
+# the read locks) can observe a mixture of two crawls. The lock invariants
+# above are checked at every unlock.
+func (dht *FullRT) runCrawler(ctx context.Context)
+  props C16
+  ghostvar $crawlNo int = 0
+  modifies *
+  ghost at call(Run): $crawlNo = $crawlNo + 1
+  ghost at assign(dht.peerAddrs): assert(heldw(dht.rtLk) && heldw(dht.kMapLk) && heldw(dht.peerAddrsLk)); dht.$paGen = $crawlNo
+  ghost at assign(dht.keyToPeerMap): assert(heldw(dht.rtLk) && heldw(dht.kMapLk) && heldw(dht.peerAddrsLk)); dht.$kmGen = $crawlNo
+  ghost at assign(dht.rt): assert(heldw(dht.rtLk) && heldw(dht.kMapLk) && heldw(dht.peerAddrsLk)); dht.$rtGen = $crawlNo
+
+# The constructor does not panic when options such as BootstrapPeers are
+# missing (sweep), validates bucket size and diversity limit before anything is
+# built, and copies both into the instance. ASSUMED (not decided): the option
+# functions, the message-sender builder and the sub-component constructors
+# called between the validation and the struct literal do not modify the
+# config objects.
+func NewFullRT(h host.Host, protocolPrefix protocol.ID, options ...Option) (*FullRT, error)
+  props C16
+  constructor
+  ghostvar $limit int = any
+  ghostvar $k int = any
+  modifies *
+  ensures [internal-configured-limit] imp(result1 == nil, result0 != nil && result0.ipDiversityFilterLimit == $limit && result0.bucketSize == $k)
+  ghost at before call(MsgSenderBuilder): assert(dhtcfg.BucketSize > 0 && fullrtcfg.ipDiversityFilterLimit >= 0)
+  ghost at assign(rt): $limit = fullrtcfg.ipDiversityFilterLimit; $k = dhtcfg.BucketSize
+
+# Bulk sends neither panic (division by the table size, nil reports) nor start
+# workers when the table is empty: they return an error instead.
+func (dht *FullRT) bulkMessageSend(ctx context.Context, keys []peer.ID, fn func(ctx context.Context, target, k peer.ID) error) error
+  props C16
+  requires dht.bucketSize > 0 && dht.ipDiversityFilterLimit >= 0
+  ghostvar $np int = -1
+  ghostvar $started bool = false
+  modifies *
+  ensures [internal-empty-table-is-an-error] imp(len(keys) > 0 && $np <= 0, result != nil && !$started)
+  ghost at assign(numPeers): $np = numPeers
+  ghost at go(func): $started = true
+  loop over keys invariant keySuccesses != nil && allT(k, peer.ID, imp(has(keySuccesses, k), keySuccesses[k] != nil))
+  loop over keySuccesses invariant allT(k, peer.ID, imp(has(keySuccesses, k), keySuccesses[k] != nil))
+@*/
